@@ -141,8 +141,8 @@ def thread_scenarios(tier):
         'T7_dup_below_build_file_in_reused_subtree': dict(prep=[sb('outer', [bf('d/a', ch=[sb('s')])])],
                                                           threads=[[sb('outer', [bf('d/a', ch=[sb('s')])])], [sb('s')]]),
         'T8_dup_file_below_build_file_in_reused_subtree': dict(
-            prep=[sb('outer', [bf('d/a', ch=[bf('d/b')])])], prep_mut=[['touch', 'd/b']],
-            threads=[[sb('outer', [bf('d/a', ch=[bf('d/b')])])], [bf('d/b')]]),
+            prep=[sb('outer', [bf('d/a', ch=[bf('d/b')])])],
+            threads=[[sb('outer', [bf('d/a', ch=[bf('d/b')])])], [bf('d/b', tag='other function')]]),
     }
     if tier != 'quick':
         S['T9_three_threads_same_subbuild'] = dict(threads=[[sb('s')], [sb('s')], [sb('s')]])
@@ -179,6 +179,14 @@ def acceptable(o, seqs):
         return False
     present = {e[0] for e in tree}
 
+    def keys(v, out):
+        if isinstance(v, list):
+            if len(v) == 3 and v[0] == 'sb' and isinstance(v[1], str):
+                out.add('sb:' + v[1])
+            for x in v:
+                keys(x, out)
+        return out
+
     def built(v, out):
         if isinstance(v, list):
             if len(v) == 3 and v[0] == 'bf' and isinstance(v[1], str):
@@ -187,9 +195,19 @@ def acceptable(o, seqs):
                 built(x, out)
         return out
     need = set()
+    claimed = []
     for r in res:
         if r[0] == 'ok':
+            mine = set()
+            built(r[1], mine)
+            keys(r[1], mine)
+            claimed.append(mine)
             built(r[1], need)
+    # at most one successful call may report a given output file / subbuild as its own
+    for i in range(len(claimed)):
+        for j in range(i + 1, len(claimed)):
+            if claimed[i] & claimed[j]:
+                return False
     if not need <= present:
         return False
     for e in tree:
